@@ -1,4 +1,4 @@
-package srgb
+package prophotorgb
 
 import (
 	"image/color"
